@@ -69,9 +69,17 @@ def check(ctx, src):
     im = src.py(IM)
     cb = im.func("_could_be_hy_src")
     ctx.require(cb is not None, "_could_be_hy_src not found")
-    t = flat(cb.body[-1])
-    ctx.check(t == "return os.path.splitext(filename)[1] not in set(importlib.machinery.SOURCE_SUFFIXES) - {'.hy'}", "HY-OR-PY", f"{IM}|_could_be_hy_src|predicate", f"the Hy-source predicate is `{t}`", IM, cb.lineno,
-              witness="a Hy file named mod.PY is handed to the Python compiler", detail="ext not in SOURCE_SUFFIXES - {.hy}, case-sensitive")
+    # the predicate: the extension exactly as written (no case folding) is not one of Python's other source suffixes -
+    # the collection is derived from importlib.machinery.SOURCE_SUFFIXES with ".hy" taken out
+    ctext = " ".join(str(flat(st)) for st in cb.body)
+    folds = [c for c in ast.walk(cb) if isinstance(c, ast.Call) and isinstance(c.func, ast.Attribute) and c.func.attr in ("lower", "upper", "casefold")]
+    uses_suffixes = any(dotted(n) == "importlib.machinery.SOURCE_SUFFIXES" for n in ast.walk(cb) if isinstance(n, ast.Attribute))
+    drops_hy = any(isinstance(n, ast.Constant) and n.value == ".hy" for n in ast.walk(cb))
+    uses_ext = any(isinstance(c, ast.Call) and (dotted(c.func) or "").endswith("splitext") for c in ast.walk(cb))
+    negated = any(isinstance(n, ast.Compare) and isinstance(n.ops[0], ast.NotIn) for n in ast.walk(cb)) or any(isinstance(n, ast.UnaryOp) and isinstance(n.op, ast.Not) for n in ast.walk(cb))
+    verdict = False if folds else (True if (uses_suffixes and drops_hy and uses_ext and negated) else (False if uses_ext and not uses_suffixes else None))
+    ctx.decide("HY-OR-PY", f"{IM}|_could_be_hy_src|predicate", verdict, f"the Hy-source predicate must compare the extension as written with SOURCE_SUFFIXES minus .hy (case folding: {bool(folds)}; SOURCE_SUFFIXES: {uses_suffixes}; .hy removed: {drops_hy})", IM, cb.lineno,
+               witness="a Hy file named mod.PY is handed to the Python compiler", detail="ext not in SOURCE_SUFFIXES - {.hy}, case-sensitive")
     sc = im.func("_hy_source_to_code")
     ctx.require(sc is not None, "_hy_source_to_code not found")
     g = sc.body[0]
